@@ -5,7 +5,8 @@ CFG = {
     "check_vo": "theories/Check/C20.vo", "prop_vo": "theories/Properties/C20.vo",
     "prop_file": "theories/Properties/C20.v",
     "theory_files": ["theories/Tri/Delaunay.v", "theories/Tri/DelaunayProofs.v",
-                     "theories/Tri/BowyerWatson.v", "theories/Tri/BowyerWatsonProofs.v"],
+                     "theories/Tri/BowyerWatson.v", "theories/Tri/BowyerWatsonProofs.v",
+                     "theories/Tri/DelaunayChar.v", "theories/Tri/BowyerWatsonComplete.v"],
     "level_text": "Coq theorems about an exact-rational model of triangulation.BowyerWatson: vertex identity, common "
                   "clockwise winding with non-zero area under general position, independence of the Go map's iteration "
                   "order (for every schedule), the repaired super triangle strictly contains every input (all scales and "
